@@ -51,6 +51,9 @@ pub struct C07Plan {
     pub texts: Vec<String>,
     #[serde(default)]
     pub only: Option<Only>,
+    /// a model of tens of megabytes: only the fault-free round trip through every API is run
+    #[serde(default)]
+    pub giant: bool,
 }
 
 pub fn real_files() -> Vec<(String, Vec<u8>)> {
@@ -83,7 +86,23 @@ pub fn plan_for(seed: u64, run: u64, files: &[(String, Vec<u8>)]) -> C07Plan {
             ..ModelKnobs::default()
         };
         let mut m = gen_model(&mut rng, &k);
-        if run % 40 == 39 {
+        if run % 3000 == 2999 {
+            // production scale: 1.5 million character n-grams (about 35 MB)
+            m.char_window_size = m.char_window_size.clamp(2, 7);
+            let w = usize::from(m.char_window_size);
+            m.char_ngram_model.clear();
+            let alpha: Vec<char> = ('\u{4e00}'..='\u{4e80}').collect();
+            'outer: for &a in &alpha {
+                for &b in &alpha {
+                    for &c in &alpha {
+                        m.char_ngram_model.push(crate::mmodel::MNgram { ngram: [a, b, c].iter().collect(), weights: vec![((a as i32 * 31 + b as i32) % 97) - 48; 2 * w - 3 + 1] });
+                        if m.char_ngram_model.len() >= 1_500_000 {
+                            break 'outer;
+                        }
+                    }
+                }
+            }
+        } else if run % 40 == 39 {
             // a serialisation whose total or body length sits exactly on (or one byte off) a
             // power-of-two block boundary
             let j = rng.range(9, 17);
@@ -111,7 +130,8 @@ pub fn plan_for(seed: u64, run: u64, files: &[(String, Vec<u8>)]) -> C07Plan {
     suffixes.push((0..n).map(|_| rng.below(256) as u8).collect());
     // models with extreme weights are serialisation stress only: no texts, no predictions
     let texts = if matches!(src, ModelSrc::Gen(_)) && run % 8 == 7 { vec![] } else { (0..4).map(|_| gen::gen_text(&mut rng)).collect() };
-    C07Plan { src, write_scheds, read_scheds, chunk_sched, suffixes, texts, only: None }
+    let giant = matches!(&src, ModelSrc::Gen(m) if m.char_ngram_model.len() >= 1_000_000);
+    C07Plan { src, write_scheds, read_scheds, chunk_sched, suffixes, texts, only: None, giant }
 }
 
 #[derive(Clone, Debug)]
@@ -198,7 +218,12 @@ pub fn execute(plan: &C07Plan) -> (Option<C07Violation>, C07Stats) {
             Some(o) => o.scenario == sc && o.p == p,
         }
     };
-    let want_sc = |sc: &str| -> bool { plan.only.as_ref().map(|o| o.scenario == sc).unwrap_or(true) };
+    let want_sc = |sc: &str| -> bool {
+        if plan.giant && !matches!(sc, "S1" | "S4" | "S8") {
+            return false;
+        }
+        plan.only.as_ref().map(|o| o.scenario == sc).unwrap_or(true)
+    };
     macro_rules! probe {
         ($n:expr) => {
             *probes.entry($n).or_insert(0) += 1
@@ -229,6 +254,9 @@ pub fn execute(plan: &C07Plan) -> (Option<C07Violation>, C07Stats) {
     }
     if l > 64 {
         probe!("serialisation-exceeds-one-bufreader-fill");
+    }
+    if plan.giant {
+        probe!("giant-model(>30 MB; fault-free round trips only)");
     }
     if l > 8192 {
         probe!("serialisation-exceeds-8KiB(std buffer size; crash points sampled, not exhaustive)");
@@ -350,9 +378,9 @@ pub fn execute(plan: &C07Plan) -> (Option<C07Violation>, C07Stats) {
 
     // ---- S4: benign read schedules ---------------------------------------------------------
     if want_sc("S4") {
-        let reference = predictions(&|| load(&bytes0).and_then(|r| r.ok()), &plan.texts);
+        let reference = if plan.giant { None } else { predictions(&|| load(&bytes0).and_then(|r| r.ok()), &plan.texts) };
         for (i, (sc, cap)) in plan.read_scheds.iter().enumerate() {
-            if !want("S4", i) {
+            if !want("S4", i) || (plan.giant && i != 3) {
                 continue;
             }
             st.attempts += 1;
@@ -391,7 +419,7 @@ pub fn execute(plan: &C07Plan) -> (Option<C07Violation>, C07Stats) {
                     if v.as_deref() != Some(&bytes0[..]) {
                         fail!("S4:model-differs", "S4", i, "benign-read", format!("capacity={cap} schedule={:?}", sc));
                     }
-                    if i == 0 || plan.only.is_some() {
+                    if (i == 0 || plan.only.is_some()) && !plan.giant {
                         let cell = std::cell::RefCell::new(Some(m2));
                         let first = std::cell::Cell::new(true);
                         let got = guarded(|| {
@@ -542,7 +570,7 @@ pub fn execute(plan: &C07Plan) -> (Option<C07Violation>, C07Stats) {
     // ---- S8: trailing bytes --------------------------------------------------------------------
     if want_sc("S8") {
         for (i, t) in plan.suffixes.iter().enumerate() {
-            if !want("S8", i) {
+            if !want("S8", i) || (plan.giant && i != 0) {
                 continue;
             }
             let mut b = bytes0.clone();
